@@ -371,6 +371,10 @@ def run(ck):
     r10_worker_error_weighed(ck, par)
     c04.r3_lifo(ck, rule="C06-R9")
     c04.r3b_pop_after_rollback(ck, rule="C06-R9")
+    # the workers do what the single-threaded run does only if everything that names a file runs on one worker: the grouping (C07)
+    from . import c07 as _c07
+    from ..framework import RuleAlias as _RA
+    _c07.run(_RA(ck, lambda r: "C06-R12"))
     # the undo re-inserts the hunk's own lines; that restores the file only because a hunk is placed solely where the file's lines
     # equal them byte for byte (the comparison of the trial, C02-R4) - run-ahead patches are undone exactly only if that holds
     from . import c02 as _c02
